@@ -68,8 +68,10 @@ Lemma no_ext s rs p d :
   finv s rs -> dget (norm_descs (fs_descs s)) p = Some d -> is_pkg d = false ->
   forall y, dget (norm_descs (fs_descs s)) (p ++ dotb :: y) = None.
 Proof.
-  intros I Ed Hd y. remember (p ++ dotb :: y) as q eqn:Eq. revert y Eq.
-  induction q as [|q Hq IH] using parent_ind; intros y Eq.
+  intros I Ed Hd.
+  assert (G : forall q : name, forall y, q = p ++ dotb :: y -> dget (norm_descs (fs_descs s)) q = None);
+    [|intros y; now apply (G _ y)].
+  intros q. induction q as [|q Hq IH] using parent_ind; intros y Eq.
   - destruct p; discriminate.
   - destruct (dget (norm_descs (fs_descs s)) q) as [v|] eqn:E; [|reflexivity]. exfalso.
     destruct (parent_closed s rs q v I E Hq) as [fl Hfl]. subst q.
@@ -81,7 +83,7 @@ Qed.
 (* the prefix walk reaches the registered prefix p of nm = p.x *)
 Lemma find_first_reach D nm p d x :
   p <> [] -> dget D p = Some d -> (forall y, dget D (p ++ dotb :: y) = None) -> nm = p ++ dotb :: x ->
-  forall q, (q = p \/ exists y, q = p ++ dotb :: y) ->
+  forall q : name, (q = p \/ exists y, q = p ++ dotb :: y) ->
   forall l, chain q = Some l -> find_first D nm l = resolve d nm x.
 Proof.
   intros Hp Ed Hno Enm q.
